@@ -132,7 +132,7 @@ inductive Expr
   | neg (e : Expr)
   | ite (c : Expr) (t e : Block)
   | if1 (c : Expr) (t : Block)           -- `if` without `else`
-  | mtch (s : Expr) (arms : Arms)
+  | mtch (s : Expr) (isOpt : Bool) (arms : Arms)   -- `isOpt`: the examinee is an `i32?` (else the enum `E`)
   | while (c : Expr) (b : Block)
   | for (x : Nat) (l : Expr) (b : Block)
   | block (b : Block)
@@ -253,16 +253,33 @@ def asInts : List Val → Option (List Int)
   | .int v :: rest => (asInts rest).map (v :: ·)
   | _ => none
 
-/-- Does the value match the pattern? If so, the environment extended with the
-    pattern's bindings. -/
-def matchPat (env : Env) (v : Val) (p : Pat) : Option Env :=
-  match p, v with
-  | .wild, _ => some env
-  | .variant 0 [x], .opt (some n) => bindAll [x] [n] env
-  | .variant 1 [], .opt none => some env
-  | .variant k bs, .enm k' fs =>
-    if k = k' then bindAll bs fs env else none
-  | _, _ => none
+/-- The discriminant of an enum value (`Some` = 0, `None` = 1; `Accept` = 0, `Reject` = 1;
+    variant index for the user enum). -/
+def discOf : Val → Option Nat
+  | .opt (some _) => some 0
+  | .opt none => some 1
+  | .enm k _ => some k
+  | .verdict true _ => some 0
+  | .verdict false _ => some 1
+  | _ => none
+
+/-- The fields of an enum value's variant. -/
+def fieldsOf : Val → List Int
+  | .opt (some n) => [n]
+  | .enm _ fs => fs
+  | .verdict _ n => [n]
+  | _ => []
+
+/-- Is the arm's pattern the value's variant (or `_`)? Only the constructor is examined. -/
+def patMatches (v : Val) : Pat → Bool
+  | .wild => true
+  | .variant k _ => discOf v == some k
+
+/-- Bind the pattern's names to the variant's fields: as many binders as fields, all
+    fresh names (`none` otherwise — the arm is malformed, evaluation is stuck). -/
+def bindPat (env : Env) (v : Val) : Pat → Option Env
+  | .wild => some env
+  | .variant _ bs => bindAll bs (fieldsOf v) env
 
 def showInt (v : Int) : String := toString v
 
@@ -358,7 +375,7 @@ def evalExpr (fns : List FnDef) : Nat → Env → Expr → R (Env × Val)
         | _ => .stuck "if without else: the block must have type ()"
       | .bool false => pure (env, .unit)
       | _ => .stuck "if on non-bool"
-    | .mtch s arms => do
+    | .mtch s _ arms => do
       let (env, v) ← evalExpr fns n env s
       evalArms fns n env v arms
     | .while c b => evalWhile fns n env c b
@@ -480,22 +497,26 @@ def evalArms (fns : List FnDef) : Nat → Env → Val → Arms → R (Env × Val
   | 0, _, _, _ => .fuel
   | _ + 1, _, _, .nil => .stuck "no arm matches"
   | n + 1, env, v, .arm p body rest =>
-    match matchPat env v p with
-    | some env' => do
-      let (env', r) ← evalBlock fns n env' body
-      pure (leave env env', r)
-    | none => evalArms fns n env v rest
-  | n + 1, env, v, .armG p g body rest =>
-    match matchPat env v p with
-    | some env' => do
-      let (env', gv) ← evalExpr fns n env' g
-      match gv with
-      | .bool true => do
+    if patMatches v p then
+      match bindPat env v p with
+      | some env' => do
         let (env', r) ← evalBlock fns n env' body
         pure (leave env env', r)
-      | .bool false => evalArms fns n (leave env env') v rest
-      | _ => .stuck "guard is not a bool"
-    | none => evalArms fns n env v rest
+      | none => .stuck "malformed pattern"
+    else evalArms fns n env v rest
+  | n + 1, env, v, .armG p g body rest =>
+    if patMatches v p then
+      match bindPat env v p with
+      | some env' => do
+        let (env', gv) ← evalExpr fns n env' g
+        match gv with
+        | .bool true => do
+          let (env', r) ← evalBlock fns n env' body
+          pure (leave env env', r)
+        | .bool false => evalArms fns n (leave env env') v rest
+        | _ => .stuck "guard is not a bool"
+      | none => .stuck "malformed pattern"
+    else evalArms fns n env v rest
 
 def evalParts (fns : List FnDef) : Nat → Env → Parts → R (Env × String)
   | 0, _, _ => .fuel
